@@ -1087,6 +1087,9 @@ def c16_templates(tier):
           UA("u1", 8), "ureset u1", "ureset u0"]
     t3 = [AA("a0", 4), "asize a0", "aat a0 3", "aslice a0 1 3 a1", AA("a0", 2), "asize a0", "aat a1 1", "aat a0 1",
           AA("a1", 3), "asize a1", "aslice a1 0 2 a1", AA("a1", 1), "aat a1 0", "areset a0", "areset a1"]
+    AS = lambda a, nm: ("aset %s E1 %d 4 {}" % (a, nm), 2)
+    t4 = [AS("a0", 3), "asize a0", "aat a0 0", "aat a0 2", "aunslice a0 a1", AS("a0", 2), "asize a0", "asize a1", "aat a1 2",
+          "arelease a1", "arelease a0", AS("a1", 3), "asize a1", "aat a1 0", "arelease a1", "areset a0", "areset a1"]
     thms = ["Cstl.Mem.run_inv", "Cstl.Mem.no_leak", "Cstl.Mem.free_at_most_once", "Cstl.Mem.step_never_asan",
             "Cstl.Mem.alloc_fail_empty", "Cstl.Mem.run_ainv"]
-    return [t1, t2, t3], (lambda sc: "C14" if any(op.split()[0].startswith("a") for op in sc) else "C05"), thms
+    return [t1, t2, t3, t4], (lambda sc: "C14" if any(op.split()[0].startswith("a") for op in sc) else "C05"), thms
